@@ -244,11 +244,12 @@ CHAIN = {
     'm3.py': ['import m4\nre3 = m4\nown3 = 3\n', 'import m4\nre3 = m4\nown3b = 33\n'],
     'm2.py': ['from m3 import re3\nfrom m4 import *\nown2 = 2\n', 'from m3 import re3\nown2 = 2\nnew2 = 22\n'],
     'm1.py': ['from m2 import *\nown1 = 1\n', 'from m2 import *\nown1 = 1\nlate1 = 11\n'],
+    'm0.py': ['from m5 import *\nfrom m1 import own1\nown0 = 0\n'],            # m5 does not exist at first
     'pk/__init__.py': ['from .inner import thing\nfrom . import inner\n', 'from .inner import thing, thing2\n'],
     'pk/inner.py': ['thing = 1\nthing2 = 2\n', 'thing = "s"\nthing2 = 2\nthing3 = 3\n'],
 }
 CHAIN_REQUESTS = [
-    ('m1.', 'import m1\nm1.', (2, 3)), ('m2.', 'import m2\nm2.', (2, 3)), ('m3.re3.', 'import m3\nm3.re3.', (2, 7)),
+    ('m0.', 'import m0\nm0.', (2, 3)), ('m1.', 'import m1\nm1.', (2, 3)), ('m2.', 'import m2\nm2.', (2, 3)), ('m3.re3.', 'import m3\nm3.re3.', (2, 7)),
     ('m1.re3.', 'import m1\nm1.re3.', (2, 7)), ('pk.', 'import pk\npk.', (2, 3)), ('pk.inner.', 'import pk\npk.inner.', (2, 9)),
     ('star-names', 'from m1 import *\nown', (2, 3)), ('lint', 'from m1 import *\nprint(base, own1, re3)\n', None),
 ]
@@ -284,8 +285,8 @@ finally:
 
 
 @harness(['C09'], 'supp.project.Project / supp.module.SourceModule [request - edit - request histories against a fresh project]',
-         bounded='a project of 6 modules in 1 package with import, from-import, star-import and re-export edges (chain of length 4): every history '
-                 'request; edit; request  over 8 requests and 13 edits (rewrite of each module to each of its variants with a new mtime, touch), '
+         bounded='a project of 7 modules in 1 package (one star-importing a module that does not exist yet) with import, from-import, star-import and re-export edges (chain of length 4): every history '
+                 'request; edit; request  over 9 requests and 13 edits (rewrite of each module to each of its variants with a new mtime, touch), '
                  'and 300 histories  request; edit; request; edit; request  drawn with a fixed seed')
 def edit_histories(run):
     """BOUNDED stand-in for the claim of C09 itself: after any history of edits (each with a new modification time) interleaved with requests,
